@@ -1838,6 +1838,19 @@ Error query_features(Arch arch, const BaseInst& inst, const Operand_* operands, 
       }
     }
 
+    // Handle AVX vs AVX10.2 overlap.
+    //
+    // AVX10.2 added EVEX forms of instructions that were initially provided as VEX-only (AVX, AVX2, AVX_VNNI_INT8,
+    // AVX_VNNI_INT16, and SM4), so the VEX encoding is preferred unless the operands or options require EVEX.
+    if (out->has(Ext::kAVX10_2) && out->has_any(Ext::kAVX, Ext::kAVX2, Ext::kAVX_VNNI_INT8, Ext::kAVX_VNNI_INT16)) {
+      if (InstInternal_usesAvx512(options, inst.extra_reg(), reg_analysis) | reg_analysis.high_vec_used) {
+        out->remove(Ext::kAVX, Ext::kAVX2, Ext::kAVX_VNNI_INT8, Ext::kAVX_VNNI_INT16);
+      }
+      else {
+        out->remove(Ext::kAVX10_2);
+      }
+    }
+
     // Clear AVX512_VL if ZMM register is used.
     if (reg_analysis.has_reg_type(RegType::kVec512)) {
       out->remove(Ext::kAVX512_VL);
